@@ -35,7 +35,14 @@ def run(ctx):
     C19.err_adapters(ctx, facts)
     align(ctx, facts)
     rendezvous_waker(ctx, facts)
-    ctx.assume("transport implementations deliver streams to the route they are given; schedule-dependent behaviour (C14) is not decided here")
+    # the "cannot deadlock while the window has room" clause rests on the buffers' waker discipline (shared with C14)
+    from rules import C14
+    C14.wake1(ctx, facts)
+    C14.slots(ctx, facts)
+    C14.latest_waker(ctx, facts)
+    C14.wake2(ctx, facts)
+    C14.guards(ctx, facts)
+    ctx.assume("transport implementations deliver streams to the route they are given; interleavings beyond the waker discipline are not decided here")
 
 
 def key_send(ctx, facts):
